@@ -16,7 +16,7 @@ ID = 'C20'
 CASE_TYPE = 'C20.case'
 EXTRA_IMPORTS = 'From PJ Require Import Model.Msg Model.Mocker.\n'
 RULE = ('operation / call histories of length 1..4 (quick: all of length <= 2 over a reduced alphabet + 2500 sampled to length 6) / '
-        '(thorough: all of length <= 3 + 40000 sampled to length 7) over 2 endpoints x 2 methods x patches {result, error, callback} x '
+        '(thorough: all of length <= 3 + 40000 sampled to length 7) + 400 / 4000 rotation scenarios (k patches on one pair, calls, a replace at each index, more calls) over 2 endpoints x 2 methods x patches {result, error, callback} x '
         'once on / off x patch ids x replace at index 0..2 x remove (method / whole endpoint) x reset x passthrough on / off x calls with '
         'positional / named / absent params and ids {1, 0, "", "x", none} x single / batch (incl. all-notification and mixed), for the '
         'sync and the async transport. distinct = distinct (history, passthrough, kind); non-trivial = at least one reply was produced')
@@ -86,6 +86,29 @@ def generate(seed, tier):
             if n == 4 and rnd.random() < 0.8:
                 continue
             cases.append({'ops': [alpha[i] for i in ops], 'passthrough': rnd.random() < 0.3, 'async': rnd.random() < 0.5})
+    # rotation scenarios on ONE (endpoint, method) pair: k patches, some calls, a replace at each index (or nothing), more calls
+    for _ in range(400 if tier == 'quick' else 4000):
+        ep, m = rnd.choice(EPS), rnd.choice(METHODS)
+        k = rnd.choice([2, 3, 3])
+        ops = [['add', ep, m, dict(rand_patch(rnd), once=rnd.random() < 0.25)] for _ in range(k)]
+
+        def calls(n):
+            out = []
+            for _ in range(n):
+                if rnd.random() < 0.75:
+                    out.append(['call', ep, {'method': m, 'params': rnd.choice(PARAMS), 'id': rnd.choice([1, 2, 'x'])}])
+                else:
+                    ids = rnd.sample([1, 0, 'x', 5], rnd.choice([2, 3]))
+                    out.append(['batch', ep, [{'method': m, 'params': rnd.choice(PARAMS), 'id': i} for i in ids]])
+            return out
+        ops += calls(rnd.choice([0, 1, 2]))
+        r = rnd.random()
+        if r < 0.7:
+            ops.append(['replace', ep, m, rnd.randrange(k), rand_patch(rnd)])
+        elif r < 0.85:
+            ops.append(['add', ep, m, rand_patch(rnd)])
+        ops += calls(rnd.choice([2, 3, 4]))
+        cases.append({'ops': ops, 'passthrough': rnd.random() < 0.3, 'async': rnd.random() < 0.5})
     for _ in range(2500 if tier == 'quick' else 40000):
         n = rnd.randint(2, 6 if tier == 'quick' else 7)
         cases.append({'ops': [rand_op(rnd) for _ in range(n)], 'passthrough': rnd.random() < 0.4, 'async': rnd.random() < 0.5})
